@@ -48,6 +48,7 @@ type Params struct {
 	HoldMs        int       `json:"hold_ms"`
 	TimeoutMs     int       `json:"timeout_ms"`
 	HeadVariant   int       `json:"head_variant"`    // CONNECT request head: 0 plain, 1 HTTP/1.0, 2 Connection: close, 3 Content-Length: 5, 4 Proxy-Connection: keep-alive, 5 Expect + TE headers
+	BodyObs       bool      `json:"body_obs"`        // upgrade: through the proxy instance whose transport records the reads of the 101 body
 	ViaProxy      bool      `json:"via_proxy"`       // upgrade: the request goes through a scripted upstream HTTP proxy
 	ReadTimeoutMs int       `json:"read_timeout_ms"` // >0: through the proxy instance configured with this ReadTimeout
 }
